@@ -171,6 +171,19 @@ class SparkSQLModel(data_algebra.db_model.DBModel):
             sql_formatters=SparkSQL_formatters,
         )
 
+    def quote_string(self, string: str) -> str:
+        """
+        Quote a string value. Backslash is an escape character in Spark SQL string literals.
+        """
+        assert isinstance(string, str)
+        return (
+            self.string_quote
+            + string.replace("\\", "\\\\").replace(
+                self.string_quote, "\\" + self.string_quote
+            )
+            + self.string_quote
+        )
+
     # noinspection PyMethodMayBeStatic
     def execute(self, conn, q):
         """
